@@ -426,3 +426,33 @@ pub fn update_rem_cid_native(have_next: bool) -> u32 {
     assert!(matches!(conn.endpoint_events.pop_front(), Some(EndpointEventInner::ResetToken(a, t)) if a == conn.path.remote && t == token), "reset token of the new CID not announced");
     2
 }
+
+/// Native replay body for the E2 query `e2_set_peer_params` (C05 / C06 / C13 / C08): the received
+/// parameters are the ones stored, handed to the stream state, to MTU discovery (saturated to u16)
+/// and to the idle-timeout negotiation.
+pub fn set_peer_params_native(mups: u32) -> u32 {
+    let mut conn = mk_conn(false, false);
+    let mut params = TransportParameters::default();
+    params.initial_max_data = VarInt::from_u32(4321);
+    params.initial_max_streams_bidi = VarInt::from_u32(7);
+    params.max_idle_timeout = VarInt::from_u32(1234);
+    params.max_ack_delay = VarInt::from_u32(55);
+    params.max_udp_payload_size = VarInt::from_u32(mups);
+    conn.set_peer_params(params);
+    assert!(conn.peer_params == params, "stored parameters differ from the received ones");
+    let (max_data, max_bi) = streams::state::peek_send_limits(&conn.streams);
+    assert!(max_data == 4321, "connection-level send limit not taken from the received parameters");
+    assert!(max_bi == 7);
+    let want_idle = match conn.config.max_idle_timeout {
+        Some(x) => x.0.min(1234),
+        None => 1234,
+    };
+    assert!(conn.idle_timeout == Some(Duration::from_millis(want_idle)), "idle timeout not negotiated against the peer's value");
+    // no probe may exceed the peer's limit
+    let cap = mups.min(65535) as u16;
+    let probe = conn.path.mtud.poll_transmit(crate::verif::mk_instant(60, 0).unwrap(), 0);
+    if let Some(p) = probe {
+        assert!(p <= cap, "MTU probe above the peer's max_udp_payload_size");
+    }
+    1
+}
